@@ -85,7 +85,7 @@ CHECKS["C08"] = {
 
 CHECKS["C19"] = {
     "level": "model_checking",
-    "rule": "Engine A: every request sequence (depth 2 quick / 3 thorough) over a vocabulary of 32 request forms (Binding; Allocate plain / retransmitted / "
+    "rule": "Engine A: every request sequence (depth 2 quick, plus every depth-3 sequence that starts with a plain Allocate of the first client / depth 3 thorough) over a vocabulary of 38 request forms (Binding; Allocate plain / retransmitted / "
             "missing or malformed REQUESTED-TRANSPORT / unsupported protocol / DONT-FRAGMENT / RESERVATION-TOKEN+EVEN-PORT / unknown token / bad and malformed "
             "REQUESTED-ADDRESS-FAMILY / family+token / EVEN-PORT / family 4 / family 6 / unknown comprehension-required attribute / LIFETIME 0; Refresh plain / unknown-required / "
             "family mismatch; CreatePermission with and without peer; ChannelBind missing number / peer / unknown-required; Connect on a UDP allocation; transaction ids "
